@@ -64,6 +64,8 @@ def adversarial(rng):
     c.update({"readonly": False, "delete_if_exists": False, "create_enabled": True,
               "update": rng.choice([["patch", 30], ["patch", 9]])})
     sc["pre"] = None
+    if sc["name"][0] == "Ok" and rng.random() < 0.06:
+        sc["name"][1] = ""        # apiConfig.name evaluates to the empty string: still what the write must carry
     if rng.random() < 0.5:
         sc["template"] = ["Inline", evil_doc(rng)]
     else:
